@@ -448,7 +448,9 @@ def run_impl(case):
                         if fv is None or fname not in doc:
                             continue
                         part = serialize_field(getattr(cls, fname), fv)
-                        if dump.canon(dump.dump_value(part, ctx)) != dump.canon(dump.dump_value(doc[fname], ctx)):
+                        fdecl = dict((n, f) for n, f in decl["fields"]).get(fname)
+                        # (arrays that came from a set are compared as sets: the getter may hand out a copy that iterates differently)
+                        if dump.canon(canon_doc(fdecl, dump.dump_value(part, ctx))) != dump.canon(canon_doc(fdecl, dump.dump_value(doc[fname], ctx))):
                             diffs.append(fname)
                     res["ser_field_diffs"] = diffs
                 except Exception as e:
@@ -560,7 +562,7 @@ def tags(case, impl, model):
     out.append("fragment:" + str(in_fragment(case["cls"])))
     m = (model or {}).get("out") or {}
     if "inFrag" in m:
-        out.append("proved-fragment(class_round_trip_partial | class_round_trip_extras_partial):" + str(bool(m["inFrag"] or m.get("inFragExtras"))))
+        out.append("proved-fragment(class_round_trip_partial | _extras_partial | _none_attrs_partial):" + str(bool(m["inFrag"] or m.get("inFragExtras") or m.get("inFragNone"))))
     if "exactDecl" in m:
         out.append("proved-fragment(deserialize_exact_partial):" + str(m["exactDecl"]))
     out.append("model-scope:" + str(in_model_scope(case["cls"])))
